@@ -339,6 +339,10 @@ def evaluate(case):
     if plx.na_false_undefined(spec, table):
         ev.skipped = "ignore_na=False with a predicate that is true on NaN (pandas) / null on null (polars): undefined"
         return ev
+    why = plx.temporal_cross_kind(spec, table) or plx.coercion_outside_shared_semantics(spec, table)
+    if why:
+        ev.skipped = why
+        return ev
     ref = None
     if not ops:
         try:
